@@ -87,7 +87,7 @@ CHECKS.update({
         design="8/C04"),
     "C06": dict(
         technique="Coq theorems on the timer logic (negotiated value, arming on OPEN acceptance, expiry actions, keep-alive re-arm, zero disables) and invariants over all timed runs incl. every interleaving of local WriteUpdate calls with the keep-alive manager; tie by timer-operation events against the extracted model + real-time scenarios judged with tolerances",
-        text="c06_negotiated: hold = min(local, received) for every pair; c06_open_accept_timers: on acceptance hold timer armed with the negotiated value and keep-alive timer with a third (none when zero); c06_hold_expiry: NOTIFICATION (4,0), close, Idle in OpenConfirm and Established; c06_keepalive_timer; c06_zero_hold: with hold 0 no timer is ever armed and timer events are no-ops. Timed model (deadlines, timers never fire early), every timed run of any length: c06_no_early_expiry (hold expiry never earlier than the hold time after the last accepted OPEN/KEEPALIVE/UPDATE), c06_expiry_action, c06_keepalive_cadence (keep-alive timer always armed at most H/3 after the last KEEPALIVE; served within L, never more than H/3+L without one), c06_zero_never_fires. With local writes (TimedW.v: plugin WriteUpdate calls and the keep-alive manager goroutine serving their reset tokens are asynchronous inputs; every interleaving, any run length): c06_cadence_with_writes / c06_armed_with_writes (keep-alive deadline <= last KEEPALIVE-or-UPDATE written + H/3 + largest write-to-reset latency), c06_no_early_expiry_with_writes, c06_reset_action (a served reset arms exactly H/3 from the serving instant and touches nothing else), c06_zero_with_writes (hold 0: writes and resets arm nothing, nothing fires), c06_resets_le_writes. Tie: the timer operations themselves (hook events t.hold/t.ka with durations) of 170+ short sessions over hold pairs incl. 0 and 65535, with 0/1/2/5 UPDATEs written inside OnEstablished, are compared with the model's arm actions, including every re-arm caused by a write (extracted op 62). Live part: sessions with hold times 3..9 s and 0 on both directions: silent remote (expiry time within tolerance), late keep-alives just inside/outside the window, keep-alive cadence measured at the remote.",
+        text="c06_negotiated: hold = min(local, received) for every pair; c06_open_accept_timers: on acceptance hold timer armed with the negotiated value and keep-alive timer with a third (none when zero); c06_hold_expiry: NOTIFICATION (4,0), close, Idle in OpenConfirm and Established; c06_keepalive_timer; c06_zero_hold: with hold 0 no timer is ever armed and timer events are no-ops. Timed model (deadlines, timers never fire early), every timed run of any length: c06_no_early_expiry (hold expiry never earlier than the hold time after the last accepted OPEN/KEEPALIVE/UPDATE), c06_expiry_action, c06_keepalive_cadence (keep-alive timer always armed at most H/3 after the last KEEPALIVE; served within L, never more than H/3+L without one), c06_zero_never_fires. With local writes (TimedW.v: plugin WriteUpdate calls and the keep-alive manager goroutine serving their reset tokens are asynchronous inputs; every interleaving, any run length): c06_cadence_with_writes / c06_armed_with_writes (keep-alive deadline <= last KEEPALIVE-or-UPDATE written + H/3 + largest write-to-reset latency), c06_no_early_expiry_with_writes, c06_reset_action (a served reset arms exactly H/3 from the serving instant and touches nothing else), c06_zero_with_writes (hold 0: writes and resets arm nothing, nothing fires), c06_resets_le_writes, c06_latency_term_is_needed (a reachable state shows the latency term cannot be dropped). The extracted runner used for this tie (op 62) is proved a conservative extension of the one used by every other connection-level comparison (c06_op62_conservative, c06_op62_exact). Tie: the timer operations themselves (hook events t.hold/t.ka with durations) of 170+ short sessions over hold pairs incl. 0 and 65535, with 0/1/2/5 UPDATEs written inside OnEstablished, are compared with the model's arm actions, including every re-arm caused by a write (extracted op 62). Live part: sessions with hold times 3..9 s and 0 on both directions: a plugin writing UPDATEs more often than the keep-alive interval (no gap above about H/3, one re-arm per write), silent remote (expiry time within tolerance), late keep-alives just inside/outside the window, keep-alive cadence measured at the remote.",
         note="Partial: wall-clock clauses are measured on a sample of hold values with scheduling tolerance; Go timers are trusted. The clocked model assumes Go timers never fire early and bounds lateness by an explicit L; the latency between an UPDATE write and the keep-alive manager serving its reset token is an explicit term (xs_maxlat) of the cadence theorem, not proved small.",
         design="8/C06"),
     "C07": dict(
